@@ -11,6 +11,8 @@ CONSTANTS
   MaxDepth = 4
   MaxCols = 2
   Emit = FALSE
+  ObsV = {}
+  ObsT = {}
 VIEW View
 CONSTRAINT Bound
 INVARIANT InvRect
